@@ -4,14 +4,16 @@ import (
 	"github.com/trustbloc/sidetree-core-go/pkg/api/operation"
 )
 
-// VHarness_C03_resolve_vs_model: the real Resolve over N published operations in anchoring order
-// equals the reference resolver (DESIGN.md B.2) on every field, error-ness included.
+// VHarness_C03_resolve_vs_model: the real Resolve over N published operations equals the reference
+// resolver (DESIGN.md B.2) on every field, error-ness included. Anchoring order is fixed by the (distinct)
+// transaction times; the transaction numbers are arbitrary, so an ordering that consults them when the
+// times already decide shows up as a different state.
 func VHarness_C03_resolve_vs_model() {
 	n := VBound("N", 3)
 	vWorldSetup(n, false)
 	var ops []*operation.AnchoredOperation
 	for i, r := range vW.recs {
-		ops = append(ops, vAnchored(i, r, uint64(10+i), uint64(i), true))
+		ops = append(ops, vAnchored(i, r, uint64(10+i), VNondetU64("txn.number"), true))
 	}
 	got, err := vResolve(ops, nil)
 	napplied := len(vW.okTags)
